@@ -249,6 +249,9 @@ def conforming_cells(rng, s, n):
     for i in range(n):
         orth = (i % 3 == 1) and s['cs'] in ('triclinic', 'monoclinic')
         c = gens.conforming_cell(rng, s['cs'], 'rhombohedral' if s['cell_choice'] == 'rhombohedral' else 'standard', orth=orth)
+        if i % 3 == 2:
+            # whole-numbered cell (a caller writes [3, 3, 5, 90, 90, 120]); rounding keeps the cell conforming
+            c = [float(max(2, round(x))) for x in c[:3]] + [float(round(x)) for x in c[3:]]
         out.append([float(round(x, 4)) for x in c])
     return out
 
@@ -341,11 +344,21 @@ def run_py(modname, fn, c, by='no', seed=None, output_stl=False, variant=0):
     if seed is not None:
         np.random.seed(seed)
     f = getattr(m, fn)
+    cellarg = cell_argument(c, variant)
     if by == 'no':
-        return f(list(c.cell), c.smin, c.smax, sgno=c.s['no'], cell_choice=call_cc(c.s), output_stl=output_stl)
+        return f(cellarg, c.smin, c.smax, sgno=c.s['no'], cell_choice=call_cc(c.s), output_stl=output_stl)
     nv = name_variants(c.s)
     nm, cc = nv[variant % len(nv)]
-    return f(list(c.cell), c.smin, c.smax, sgname=nm, cell_choice=cc, output_stl=output_stl)
+    return f(cellarg, c.smin, c.smax, sgname=nm, cell_choice=cc, output_stl=output_stl)
+
+
+def cell_argument(c, variant=0):
+    """the cell in the container / numeric type a caller may use: whole-numbered cells are passed as Python ints (list) or as an
+    integer ndarray, the others as a list of floats or a float ndarray"""
+    if all(float(x) == int(x) for x in c.cell):
+        ints = [int(x) for x in c.cell]
+        return ints if variant % 2 == 0 else np.array(ints)
+    return [list(c.cell), tuple(c.cell), np.array(c.cell, dtype=float)][variant % 3]
 
 
 def frac_str(f):
